@@ -4,7 +4,7 @@ from __future__ import annotations
 
 import importlib
 
-from sa.report import Report, Undecided
+from sa.report import ModelViolation, Report, Undecided
 
 
 _ACTIVE = []
@@ -21,6 +21,9 @@ def include(rep, src, other_pid, rules, as_rule, clause):
         mod.check(src, sub)
     except Undecided as e:
         rep.undecide(f"{as_rule} clause '{clause}' depends on the rule set of {other_pid}, which is undecided: {str(e)[:160]}")
+        return
+    except ModelViolation as e:
+        rep.violation(as_rule, e.at, f"{other_pid}/R0:{e.construct}", f"{clause}: {e.reason}", e.file, e.line, e.witness)
         return
     finally:
         _ACTIVE.pop()
